@@ -75,6 +75,9 @@ def install() -> None:
     threading.Lock = lock_factory  # type: ignore[assignment]
     threading.RLock = rlock_factory  # type: ignore[assignment]
 
+    import logging
+
+    logging.getLogger("sqlglot").setLevel(logging.ERROR)
     import fakesnow
 
     here = os.path.realpath(fakesnow.__file__)
